@@ -71,6 +71,9 @@ func parseOpts(fs *flag.FlagSet, args []string) (*runOpts, *string) {
 			o.tier = t
 		}
 	}
+	if d := os.Getenv("GCV_OVERLAY"); d != "" {
+		o.overlay = loadOverlay(d, o.repo)
+	}
 	o.seed = envInt("VERIF_SEED", 0)
 	o.timeoutMs = 10000
 	if o.tier == "thorough" {
@@ -191,7 +194,7 @@ func runProperty(o *runOpts, prop string) ([]*FuncResult, error) {
 			fr := x.verify(c)
 			frs = append(frs, fr)
 			if o.verbose {
-				fmt.Fprintf(os.Stderr, "  %-60s paths=%d obligs=%d pending=%d %.2fs %s%s\n", shortKey(c.Key()), fr.Paths, len(fr.Obligs), pending(fr), fr.Secs, fr.Aborted, fr.Vacuous)
+				fmt.Fprintf(os.Stderr, "  %-60s paths=%d merged=%d obligs=%d pending=%d %.2fs (session: %d queries %.1fs) %s%s\n", shortKey(c.Key()), fr.Paths, x.merged, len(fr.Obligs), pending(fr), fr.Secs, x.sess.nquery, x.sess.total.Seconds(), fr.Aborted, fr.Vacuous)
 			}
 		}
 		x.sess.Close()
@@ -467,4 +470,21 @@ func writeReplay(o *runOpts, dir, prop string, fr *FuncResult, ob *Oblig, verdic
 	data, _ := json.MarshalIndent(rp, "", " ")
 	os.WriteFile(path, data, 0o644)
 	return replayInfo{path: path, reproduced: reproduced}
+}
+
+// loadOverlay maps every file under dir (mirroring repo-relative paths) onto the repository path.
+func loadOverlay(dir, repo string) map[string][]byte {
+	ov := map[string][]byte{}
+	filepath.Walk(dir, func(p string, info os.FileInfo, err error) error {
+		if err != nil || info.IsDir() {
+			return nil
+		}
+		rel, _ := filepath.Rel(dir, p)
+		data, err := os.ReadFile(p)
+		if err == nil {
+			ov[filepath.Join(repo, rel)] = data
+		}
+		return nil
+	})
+	return ov
 }
